@@ -5,13 +5,14 @@ import ast
 from typing import Any, Callable
 
 from sa import ordenum
+from sa.casesplit import Splitter, describe
 from sa.cfg import CFG, calls_in
 from sa.guards import Exit, GuardWalk, is_opaque
 from sa.kern import make_evaluator
 from sa.report import Ctx
-from sa.srcmodel import FuncInfo, func_body
-from sa.symterm import (Env, Evaluator, Poly, Unsupported, c_and, c_not,
-                        c_or, show, show_cond)
+from sa.srcmodel import FuncInfo, func_body, inline_locals
+from sa.symterm import (Env, Evaluator, Poly, Unsupported, _eq, c_and,
+                        c_not, c_or, show_cond)
 
 MOD = "moptipyapps.binpacking2d.packing_space"
 
@@ -309,41 +310,65 @@ def _pair_clause(ctx: Ctx, vf: FuncInfo, ev: Evaluator, gw: GuardWalk,
            "pair loop has no break/return" if not early else
            f"`{ast.unparse(early[0].node)}` leaves the pair loop early",
            construct="pair loop early exit")
-    skips = [e for e in exits if e.kind == "continue"]
     raises = [e for e in exits if e.kind == "raise"]
-    # skip condition: exactly (other bin) or (same row)
-    skip = c_or(*[e.cond for e in skips]) if skips else ("false",)
     jv = Poly.var(jvar)
-    sterms = [R.bin, R2.bin, ivar, jv]
-    if is_opaque(skip):
-        ctx.ob("D4.1", vf, skips[0].node, False,
-               "skip condition of the pair loop cannot be normalised",
-               construct="pair loop skip")
-    else:
-        def want_skip(m: ordenum.OrderModel) -> bool:
-            b1, b2, i, j = (m.rank(x) for x in sterms)
-            return b1 != b2 or i == j
-        _equiv(ctx, vf, "D4.1", "F7 pairs skipped = other bin or same row",
-               c_not(skip), sterms, ["bin_i", "bin_j", "i", "j"],
-               lambda m: not want_skip(m), None,
-               skips[0].test if skips and skips[0].test else pair_loop,
-               integer=False)
-    coords = [R.L, R.R, R.B, R.T, R2.L, R2.R, R2.B, R2.T]
-
-    def side(m: ordenum.OrderModel) -> bool:
-        L, Rr, B, T, L2, Rr2, B2, T2 = (m.rank(x) for x in coords)
-        return L < Rr and B < T and L2 < Rr2 and B2 < T2
-
-    def no_overlap(m: ordenum.OrderModel) -> bool:
-        L, Rr, B, T, L2, Rr2, B2, T2 = (m.rank(x) for x in coords)
-        return not (L2 < Rr and L < Rr2 and B2 < T and B < T2)
-    good = [e for e in raises if not is_opaque(e.cond)]
-    # the raise guards are evaluated on the non-skipped path
-    acc = c_and(*[c_not(_strip(e.cond, skip)) for e in good])
-    _equiv(ctx, vf, "D4.1", g, acc, coords,
-           ["L", "R", "B", "T", "L2", "R2", "B2", "T2"], no_overlap, side,
-           (good[0].test or good[0].node) if good else pair_loop,
-           integer=False)
+    node = (raises[0].test or raises[0].node) if raises else pair_loop
+    if any(is_opaque(e.path) for e in raises) or not raises:
+        ctx.ob("D4.1", vf, node, False,
+               "the condition under which a pair of rows is rejected "
+               "cannot be normalised" if raises else
+               "no pair of rows is ever rejected",
+               construct=f"clause {g}")
+        return
+    # the pair (i, j) is rejected iff some raise of the pair loop is reached
+    # (its guard and the negations of the exits before it - `continue`
+    # guards and enclosing `if`s alike)
+    rejected = c_or(*[e.path for e in raises])
+    same_bin = _eq(R.bin, R2.bin)
+    same_row = _eq(ivar, jv)
+    overlap = ("and", ("lt", R2.L, R.R), ("lt", R.L, R2.R),
+               ("lt", R2.B, R.T), ("lt", R.B, R2.T))
+    side = [("lt", R.L, R.R), ("lt", R.B, R.T), ("lt", R2.L, R2.R),
+            ("lt", R2.B, R2.T)]
+    sp = Splitter(integer=False)
+    facts0: list[Any] = []
+    for c_ in side:
+        facts0 += sp.facts_of(c_, True)[0]
+    n_cases = 0
+    bad_skip = bad_ov = None
+    try:
+        for facts, (rj, sb, sr, ov), trail in sp.cases(
+                (rejected, same_bin, same_row, overlap), facts0):
+            n_cases += 1
+            relevant = sb == ("true",) and sr == ("false",)
+            if not relevant:
+                if rj == ("true",) and bad_skip is None:
+                    bad_skip = (f"[{describe(trail)[:200]}] a pair in "
+                                "different bins (or a row with itself) is "
+                                "rejected")
+                continue
+            if rj != ov:
+                if ov == ("true",) and bad_ov is None:
+                    bad_ov = (f"[{describe(trail)[:240]}] validator ACCEPTS "
+                              "although two boxes of one bin overlap")
+                elif ov != ("true",) and bad_skip is None and \
+                        bad_ov is None:
+                    bad_ov = (f"[{describe(trail)[:240]}] validator REJECTS "
+                              "although the clause holds")
+    except Unsupported as u:
+        bad_ov = f"guards of clause {g} cannot be case-split: {u}"
+    ctx.count("orderings_enumerated", n_cases)
+    ctx.ob("D4.1", vf, node, bad_skip is None,
+           "clause F7 pairs skipped = other bin or same row: only pairs of "
+           "distinct rows of the same bin are ever rejected"
+           if bad_skip is None else bad_skip,
+           construct="clause F7 pairs skipped = other bin or same row")
+    ctx.ob("D4.1", vf, node, bad_ov is None and n_cases > 0,
+           f"clause {g}: on all {n_cases} outcomes of the comparisons a "
+           "pair of distinct rows of one bin is rejected iff the two boxes "
+           "overlap (L2 < R and L < R2 and B2 < T and B < T2)"
+           if bad_ov is None else bad_ov, construct=f"clause {g}",
+           witness=None if bad_ov is None else {"case": bad_ov})
 
 
 def _strip(cond: tuple, skip: tuple) -> tuple:
@@ -478,29 +503,13 @@ def _contiguous(cond: tuple, ts: list[Poly]) -> tuple[bool, str]:
     if mn is None or mx is None or ln is None:
         return False, "guard does not relate min, max and len of the bin set"
     one = Poly.const(1)
-    span = mx - mn + one
-    for alt_terms, alt in (
-            ([mn, one, span, ln],
-             lambda m: m.rank(mn) == m.rank(one)
-             and m.rank(span) == m.rank(ln)),
-            ([mn, one, mx, ln],
-             lambda m: m.rank(mn) == m.rank(one)
-             and m.rank(mx) == m.rank(ln))):
-        if not all(t in alt_terms for t in ts):
-            continue
-        bad = None
-        try:
-            for m in ordenum.enumerate_models(alt_terms):
-                if m.cond(c_not(cond)) != alt(m):
-                    bad = m.describe()
-                    break
-        except Unsupported as u:
-            bad = f"guard compares other values ({u})"
-        if bad is None:
-            return True, ("raise unless min(bins) == 1 and the id span "
-                          "equals the number of distinct bins")
-        return False, f"contiguity guard differs from the clause for {bad}"
-    return False, "contiguity guard compares unexpected values"
+    from sa.casesplit import equivalent
+    ref = ("and", _eq(mn, one), _eq(mx - mn + one, ln))
+    same, why = equivalent(c_not(cond), ref)
+    if same:
+        return True, ("raise unless min(bins) == 1 and the id span "
+                      "equals the number of distinct bins")
+    return False, f"contiguity guard differs from the clause: {why[:200]}"
 
 
 def _names_value(gw: GuardWalk, loop: ast.For, expr: ast.expr,
@@ -555,15 +564,10 @@ def _type_clauses(ctx: Ctx, vf: FuncInfo, xname: str) -> None:
                 want["x.dtype is the instance's dtype"] = True
             if f"{xname}.shape" in sides and isinstance(
                     t.ops[0], ast.NotEq):
-                other = (sides - {f"{xname}.shape"}).pop()
-                shape_src = other
-                for a in func_body(vf):
-                    if isinstance(a, (ast.Assign, ast.AnnAssign)):
-                        tg = a.targets[0] if isinstance(a, ast.Assign) \
-                            else a.target
-                        if isinstance(tg, ast.Name) and tg.id == other \
-                                and a.value is not None:
-                            shape_src = ast.unparse(a.value)
+                other_n = t.left if ast.unparse(
+                    t.comparators[0]) == f"{xname}.shape" \
+                    else t.comparators[0]
+                shape_src = ast.unparse(inline_locals(vf.node, other_n))
                 if shape_src.replace(" ", "").endswith(".n_items,6)"):
                     want["x.shape == (n_items, 6)"] = True
         del src
